@@ -662,57 +662,63 @@ Section Oracles.
 
   Definition tag (n : text) (ps : list path) : list (text * path) := map (fun p => (n, p)) ps.
 
+  (* the rest of the loop after this definition contributed [errs] and maybe a value *)
+  Definition vars_rest (d : vardef) (loop : result (list (text * path) * env))
+      (errs : list (text * path)) (o : option pyval) : result (list (text * path) * env) :=
+    match loop with
+    | Good (es, cs) => Good (errs ++ es, match o with
+                                         | Some y => (v_name d, y) :: cs
+                                         | None => cs
+                                         end)
+    | e => e
+    end.
+
+  (* coerce the provided value; on failure ask the validator for the errors *)
+  Definition vars_by_value (fuel : nat) (d : vardef) (value : pyval)
+      (loop : result (list (text * path) * env)) : result (list (text * path) * env) :=
+    match coerce_val fuel (v_type d) value with
+    | Good y => vars_rest d loop [] (Some y)
+    | Invalid =>
+        match validate_val fuel (v_type d) value [] with
+        | Some ps => vars_rest d loop (tag (v_name d) ps) None
+        | None => Fuel
+        end
+    | Crash => Crash
+    | Fuel => Fuel
+    end.
+
+  (* maybe_use_default_value after the TypeError of coerce_default_value: the errors of
+     validate_default_input, or the TypeError itself when that reports nothing *)
+  Definition vars_default_errs (fuel : nat) (d : vardef) (dl : lit)
+      (loop : result (list (text * path) * env)) : result (list (text * path) * env) :=
+    match validate_lit fuel true [] (v_type d) dl [] with
+    | Some [] => vars_rest d loop [(v_name d, [])] None
+    | Some ps => vars_rest d loop (tag (v_name d) ps) None
+    | None => Fuel
+    end.
+
   (* returns (errors, coerced) accumulated in definition order *)
   Fixpoint coerce_vars_loop (fuel : nat) (defs : list vardef) (inputs : list (text * pyval))
     : result (list (text * path) * env) :=
     match defs with
     | [] => Good ([], [])
     | d :: r =>
-        let rest (errs : list (text * path)) (o : option pyval) :=
-          match coerce_vars_loop fuel r inputs with
-          | Good (es, cs) => Good (errs ++ es, match o with
-                                               | Some y => (v_name d, y) :: cs
-                                               | None => cs
-                                               end)
-          | e => e
-          end in
+        let loop := coerce_vars_loop fuel r inputs in
         let value := dget (v_name d) inputs in
-        let by_value :=
-          match coerce_val fuel (v_type d) value with
-          | Good y => rest [] (Some y)
-          | Invalid =>
-              match validate_val fuel (v_type d) value [] with
-              | Some ps => rest (tag (v_name d) ps) None
-              | None => Fuel
-              end
-          | Crash => Crash
-          | Fuel => Fuel
-          end in
         if is_undef value then
           match v_default d with
           | Some dl =>
-              (* maybe_use_default_value *)
               match coerce_lit fuel [] (v_type d) dl with
-              | Good y => rest [] (Some y)
-              | Invalid =>
-                  (* TypeError -> validate_default_input, or the TypeError itself *)
-                  match validate_lit fuel true [] (v_type d) dl [] with
-                  | Some [] => rest [(v_name d, [])] None
-                  | Some ps => rest (tag (v_name d) ps) None
-                  | None => Fuel
-                  end
-              | Crash =>
-                  (* a nested field default is invalid: TypeError as well *)
-                  match validate_lit fuel true [] (v_type d) dl [] with
-                  | Some [] => rest [(v_name d, [])] None
-                  | Some ps => rest (tag (v_name d) ps) None
-                  | None => Fuel
-                  end
+              | Good y => vars_rest d loop [] (Some y)
+              | Invalid => vars_default_errs fuel d dl loop
+              | Crash => vars_default_errs fuel d dl loop
               | Fuel => Fuel
               end
-          | None => if is_nonnull (v_type d) then by_value else rest [] None
+          | None =>
+              if is_nonnull (v_type d) then vars_by_value fuel d value loop
+              else vars_rest d loop [] None
           end
-        else by_value
+        else vars_by_value fuel d value loop
     end.
 
   Definition coerce_variables (fuel : nat) (defs : list vardef) (inputs : list (text * pyval))
